@@ -77,6 +77,23 @@ CHECKS = {
    design_ref='DESIGN.md par.5 C06',
    note='one fault per run; open(2) contract for ENXIO/EOPNOTSUPP; os.walk reports scandir '
         'errors through onerror; save phase and decompressors outside the claim'),
+ 'C15': dict(
+   text='The real find_top_level_manifest runs on model directory chains (depth 1-2 quick, 1-3 '
+        'thorough) where per level the Manifest presence, its name (plain/compressed), the kind '
+        'of IGNORE entry (start path, ancestor, sibling, string-prefix look-alike), the device '
+        'of each level and of one Manifest file, allow_compressed and allow_xdev are symbolic '
+        'choices; the result equals a reference written from the statement.',
+   design_ref='DESIGN.md par.5 C15',
+   note='model filesystem with a model "/" without Manifest; Manifest parsing replaced by entry '
+        'objects; depth <= 3; one Manifest name per level'),
+ 'C16': dict(
+   text='The three walkers (verify, unregistered-Manifest scan, update) run on a model with 3 '
+        'symlink slots whose targets range symbolically over {none, root, a, a/b, c}, symbolic '
+        'IGNORE placement, a directory and an empty mount point on other devices, '
+        'one-file-system on/off; the model walk has fuel so non-termination is observable; the '
+        'oracle is the definition evaluated by DFS over the link graph.',
+   design_ref='DESIGN.md par.5 C16',
+   note='os.walk(followlinks) protocol model; <=3 links, 4 directories; files consistent'),
 }
 
 NOT_APPLICABLE = {
